@@ -61,7 +61,7 @@ PROPS = {
   'rule': 'buildRootsLeaves with leaf sizes 1..40 on lists whose length is an exact multiple / leaves a short tail / is arbitrary; optimizeDirectories on regular and '
           'incompressible lists of 0..20000 (quick) / ..10^6 (thorough) entries at the sizes where the flat-root rule and the leaf-size steps change, budgets 16257/2000/40; '
           'NoCompression results compared byte-exactly (length+md5 of root and leaves) with the model, gzip results checked by the independent reader; badly compressing lists '
-          'searched so that the flat gzip root lands within +-100 bytes of the budget. Non-trivial: more entries than one leaf holds; distinct by case line Regular lists (given by parameters) whose pointer tile-ID deltas sit just below a varint size boundary at the first leaf size, one entry more than a whole number of leaves, budgets 120/170 that the first attempt just misses.',
+          'searched so that the flat gzip root lands within +-100 bytes of the budget. Non-trivial: more entries than one leaf holds; distinct by case line Regular lists (given by parameters) whose pointer tile-ID deltas sit just below a varint size boundary at the first leaf size, one entry more than a whole number of leaves, budgets 120/170 that the first attempt just misses. Two whole-archive extracts of a 21,845-tile source (the output needs leaf directories) are read back through their header offsets by the independent reader (structure, leaves tiling the leaf section, every entry).',
   'trusted_base': [GZIP + '; for the theorems gzip is any serializer with a round trip',
                    'Flocq (float32 leaf-size sequence): the literal sequence of coq/Model/DirBuild.v is proved equal to the Flocq computation (Proofs/DirBuildF32.v, depends on the '
                    'standard-library real-number axioms through Flocq); C05_terminates_all (Proofs/LeafGrowth.v) uses the Flocq specifications of binary32 multiplication, division, comparison and integer '
@@ -87,7 +87,7 @@ PROPS = {
  'C15': {
   'rule': 'valid archives written by the harness (2..13 entries, one in six a single entry addressing one tile, one in six fully deduplicated to one content; runs, shared offsets, clustered and unordered layouts, 0..2 leaf levels, gzip/none, plain and 16 KiB-padded layouts) '
           'and every single-field / single-entry corruption of each: addressed/entries/contents +-1 and set to 0, min/max/center zoom, degenerate bounds, data/metadata length +-1, each section offset set to 0, '
-          'file truncated/extended, clustered flag on an unordered archive, an entry moved outside the tile data, an entry shifted backwards to an unused offset. Archives written by the real Cluster and Convert (dedup on/off) from consistent inputs whose tiles sit around a zoom boundary with equal contents, so that runs cross it, also at the very end, must verify. All cases non-trivial; distinct by case line',
+          'file truncated/extended, clustered flag on an unordered archive, an entry moved outside the tile data, an entry shifted backwards to an unused offset. One written case in seven holds a 72,000-byte tile next to tiny ones. Archives written by the real Cluster and Convert (dedup on/off) from consistent inputs whose tiles sit around a zoom boundary with equal contents, so that runs cross it, also at the very end, must verify. All cases non-trivial; distinct by case line',
   'trusted_base': [GZIP, 'roaring64 bitmap modelled as a duplicate-free list of offsets', 'the local-file bucket and os.Stat (file size)'],
   'assumptions': ['directories are readable (the harness writes them); archives have at least one entry'],
   'explanation': 'The verify model is compared with pmtiles.Verify on every valid archive and every corruption; the oracle knows by construction which files are consistent.',
@@ -97,7 +97,7 @@ PROPS = {
   'rule': 'request paths over the grammar {names, ".", "..", empty segments, %2e, %2f, %5c, double escapes, names with every punctuation class, non-ASCII and invalid UTF-8, '
           'sibling directories sharing the served name as prefix} x {tile, metadata, TileJSON suffixes, malformed suffixes, overflowing numbers} compared with the three Go regexps; '
           'keys with dot/empty segments compared with filepath.IsLocal/Join; hostile requests against a served directory with marker archives in the parent, in a prefix-sharing sibling '
-          'and in another directory, through Server.Get, ServeHTTP and raw bytes to a real listener mounted on a ServeMux. All cases non-trivial; distinct by case line',
+          'and in another directory, through Server.Get, ServeHTTP and raw bytes to a real listener mounted on a ServeMux; a quarter of these against a second served directory whose name begins with # and contains ? and a percent escape (characters that mean something in a URL). All cases non-trivial; distinct by case line',
   'trusted_base': ['Go regexp, strconv, path/filepath (their lexical semantics is transcribed in Model/PathParse.v and Model/PathSafe.v and exercised against the real functions)',
                    'net/http request parsing, ServeMux cleaning and percent-decoding (only observed)', 'symbolic links are out of scope (lexical confinement)'],
   'assumptions': ['the served root is an absolute clean path'],
@@ -108,7 +108,7 @@ PROPS = {
   'rule': 'every (offset, length) pair on objects of 0/1/5/8 bytes (thorough: up to 300) incl. crossing and beyond the end and zero length, x {unconditioned, current tag, stale tag}, '
           'on the in-memory, local-directory (through OpenBucket file://) and HTTP (through OpenBucket http:// against an RFC 7232/7233 origin) backends; missing objects; replacement '
           'histories (rewrite and rename-over, same and different sizes, mtimes differing by 1 ns / within one second / by seconds / backwards, repeated contents) observed as tag equality classes '
-          'and stale-read refusals; HTTP faults (connection refused, reset, 204/301/403/404/412/416/500/503); the cloud adapter (BucketAdapter) through a real gocloud blob.Bucket over a stand-in provider driver in an Azure and an S3 flavour (If-Match honoured, provider error types wrapped by gocloud as in production): exact bytes, tag change on replacement, stale-tag refusal, missing object. Non-trivial: non-empty object or fault; distinct by case line',
+          'and stale-read refusals; HTTP faults (connection refused, reset, 204/301/403/404/412/416/500/503); the cloud adapter (BucketAdapter) through a real gocloud blob.Bucket over a stand-in provider driver in an Azure and an S3 flavour (If-Match honoured, provider error types wrapped by gocloud as in production): exact bytes, tag change on replacement, stale-tag refusal, missing object; ranges of 35,000..300,000 bytes over the HTTP backend from an origin that delivers the second half of the body after the call has returned. Non-trivial: non-empty object or fault; distinct by case line',
   'trusted_base': ['the OS file API (ReadAt, Stat, rename) and that the harness can set mtimes with Chtimes; the loopback origin is net/http.ServeContent',
                    'tags are compared as equality classes: xxhash64 no-collision on the (mtime,size) pairs / contents of one history',
                    'the cloud adapter (gocloud) is modelled only through its status classification'],
@@ -132,7 +132,7 @@ PROPS = {
   'uses_generated': True,
   'rule': 'schedules over 1..3 archives (root-only to two leaf levels, mixed directories, gzip/none) and 2..7 concurrent tile requests (stored / absent tiles, wrong extension, missing archive) with a random '
           'release order of the blocked bucket calls; after every macro step the set of blocked calls and the completed requests of the real server are compared with the model. '
-          'Four runs serve an archive whose leaf directories do not parse and ask the same tile three times (the warm answers must equal the cold one). Half as many schedules again start from a warm cache, replace the archive (1..3 times) and then run 2..5 concurrent requests, whose refused stale reads all purge and refetch; the coalescing oracle (no two identical header/directory fetches outstanding at once) judges every step. Non-trivial: more than two requests; distinct by case line',
+          'Four runs cancel the context of the first of two requests that share a blocked header or leaf fetch (the scheduling bucket honours the call context, as the HTTP and cloud backends do): the other request must be answered as uncached. Four runs serve an archive whose leaf directories do not parse and ask the same tile three times (the warm answers must equal the cold one). Half as many schedules again start from a warm cache, replace the archive (1..3 times) and then run 2..5 concurrent requests, whose refused stale reads all purge and refetch; the coalescing oracle (no two identical header/directory fetches outstanding at once) judges every step. Non-trivial: more than two requests; distinct by case line',
   'trusted_base': ['the Go scheduler, channel semantics and real time are abstracted to an interleaving LTS at the granularity of loop messages and bucket calls (coq/Model/Server.v)',
                    'the scheduling bucket of the harness stands for the bucket contract of the property (tag per version, conditional reads honoured)',
                    'quiescence of the real server is detected from goroutine states (runtime.Stack)', GZIP],
@@ -144,7 +144,7 @@ PROPS = {
   'rule': 'schedules with 1..2 archives, warm or cold cache, 2..6 tile requests and 0..3 replacements (new versions with different sizes, layouts, leaf structures; occasional deletion) placed before or between '
           'the releases of blocked bucket calls; systematic schedules: one tile request, every placement of up to two replacements among its bucket calls x cold/warm cache x with/without a replacement completed beforehand, '
           'versions sharing tile ids and tile type but not layout; micro schedules: the event loop held inside the trace sink at one request\'s header lookup while another request\'s purging retry queues up '
-          '(oracle only, the executable model is macro-step). About one request in seven is a metadata or TileJSON request; every 200 is observed with its Content-Type/Content-Encoding; sequential request/replace sequences on the real local-directory and HTTP buckets (their own version tags; on the local directory the versions of every other run have equal file sizes, those of the remaining runs shrink so that a read at the offsets of an older version runs past the end of the new file - the tile stored last is asked first after the replacement - and successive versions are published within the same second with different sub-second modification times); calls blocked with identical arguments are released together. Non-trivial: at least one replacement; distinct by case line',
+          '(oracle only, the executable model is macro-step). About one request in seven is a metadata or TileJSON request; every 200 is observed with its Content-Type/Content-Encoding; sequential request/replace sequences on the real local-directory and HTTP buckets (their own version tags; on the local directory the versions of every other run have equal file sizes, those of the remaining runs shrink so that a read at the offsets of an older version runs past the end of the new file - the tile stored last is asked first after the replacement - and successive versions are published within the same second with different sub-second modification times); six runs in which a tile read is answered by the bucket before a replacement and delivered after it while a second request for the same tile begins and ends in between (two-phase release of the scheduling bucket); calls blocked with identical arguments are released together. Non-trivial: at least one replacement; distinct by case line',
   'trusted_base': ['the Go scheduler, channel semantics and real time are abstracted to an interleaving LTS at the granularity of loop messages and bucket calls (coq/Model/Server.v)',
                    'the scheduling bucket of the harness stands for the bucket contract of the property (tag per version, conditional reads honoured)',
                    'quiescence of the real server is detected from goroutine states (runtime.Stack)', GZIP],
@@ -187,7 +187,7 @@ PROPS = {
   'rule': 'archives written by the harness (1..12 entries, runs, shared contents, root-only to two leaf levels, gzip/none internals, every tile type, E7 header coordinates over the whole int32 range incl. '
           'the boundaries and the values a truncating conversion gets wrong) through the real Edit with header JSON (all known and several unknown type/compression names, zooms -4..549, coordinates as '
           'decimal literals with 0..12 decimals over the whole E7 range, wrong-length bounds/center), new metadata of varying length (keys out of order, HTML characters, nested values, non-objects) or both; '
-          'show --header-json fed back to edit; a metadata edit under every output-size limit 0..size+2 (RLIMIT_FSIZE in child processes) and SIGKILL at sampled instants of both edit paths. '
+          'show --header-json fed back to edit; a metadata edit (every other one SHRINKING the section) under every output-size limit 0..size+2 (RLIMIT_FSIZE in child processes) and SIGKILL at sampled instants of both edit paths. '
           'All cases non-trivial; distinct by case line',
   'trusted_base': [GZIP, 'Flocq binary64 (Bdiv, Bmult, binary_normalize) as the meaning of Go float64 arithmetic; the theorems about it depend on the standard-library real-number axioms through Flocq',
                    'strconv: a decimal literal m/10^k (|m| < 2^53, k <= 22) parses to the correctly rounded quotient, and the text json.Marshal prints for a float64 parses back to the same float64',
@@ -235,7 +235,7 @@ PROPS = {
  'C16': {
   'rule': 'regions: boxes (random and on tile edges of zooms 2..5 / the equator), convex and concave polygons, polygons with a hole, disjoint and overlapping multipolygons, long oblique quadrilaterals, as bbox text, '
           'Polygon/MultiPolygon geometry, Feature and FeatureCollection, coordinates with four decimals; zoom 2..7 x minimum zoom 0..zoom through the exported region -> tile-ID-set computation; '
-          'end to end through Extract on a full source pyramid z0..5 (deep enough for tiles all of whose descendants are interior). Oracles with the harness\'s own Web-Mercator geometry over every tile of every zoom in range. All cases non-trivial; distinct by case line',
+          'end to end through Extract on a full source pyramid z0..5 (deep enough for tiles all of whose descendants are interior); in half of the runs the source declares regional bounds inside the bounding box of the region. Oracles with the harness\'s own Web-Mercator geometry over every tile of every zoom in range. All cases non-trivial; distinct by case line',
   'trusted_base': ['orb (tilecover, planar point-in-polygon, Mercator projection, GeoJSON parsing): NOT verified; it enters the theorems as the boundary list and the inside predicate with the hypothesis H_cover; '
                    'the harness checks both against its own geometry (edge sampling at 1/16 tile, even-odd ray casting, point-segment distances) on every case',
                    'roaring64 bitmaps modelled as ascending duplicate-free lists', 'Flocq binary64 for the header bounds/centre (truncating int32(f*1e7) of the bounding box and of its float64 midpoint)'],
